@@ -1,3 +1,4 @@
+import Cutadapt.Generated.Tolerance
 import Cutadapt.Proofs.MatchSoundMin
 /-! # C01 — every reported adapter match is a genuine, in-tolerance occurrence
 
@@ -311,5 +312,18 @@ theorem noindel_needs_rate_le_one :
   ⟨{ ty := .back, seq := [65,67], thr := fun _ => 200000, minOverlap := 1, readWildcards := false,
      adapterWildcards := false, indels := false }, [67], ⟨0, 2, 0, 1, -1, 100000, false⟩,
    ⟨by decide, fun _ _ _ => Nat.le_refl _, rfl, by decide⟩, rfl, by decide, by decide +kernel, by decide⟩
+
+/-! ## Tolerance over the full adapter for absolute error counts (regenerated from the working tree on every run) -/
+
+/-- `-e k` on an adapter of `n` informative bases is stored as the double `k/n`; over the whole adapter the tolerance is `floor(fl(k/n) · n)`
+    (`thrOfRate`), which is `k - 1` for a few pairs such as (1, 49) -/
+def fullTolerance (k n : Nat) : Nat := Cutadapt.Adapters.thrOfRate (Float.ofNat k / Float.ofNat n) n
+
+/-- **The real program accepts exactly `floor(fl(k/n) · n)` substitutions in a full-length occurrence of an anchored adapter given with `-e k`** — no match is
+    reported beyond the maximum error rate times the aligned bases, also where the double product falls just below `k` (observed: probe reads with 0 … k+1
+    substitutions through the command-line program; the model's `thr` is the same function) -/
+theorem generated_full_tolerance :
+    ∀ row ∈ Cutadapt.Generated.toleranceRows, row.2.2.1 = fullTolerance row.1 row.2.1 := by
+  decide +kernel
 
 end Cutadapt.C01
